@@ -96,12 +96,74 @@ def only_uuid_width(want, got):
         return False
 
 
+_PREREG: dict | None = None
+
+
+def import_all():
+    """every bumble module the check touches, imported up front so that what the modules
+    register at import time is the same in a shard and in a fresh single-item process"""
+    from bumble import (a2dp, att, avc, avctp, avdtp, avrcp, core, data_types, gatt, hci, l2cap,  # noqa
+                        rfcomm, rtp, sdp, smp)
+
+
+def prereg():
+    """UUIDs registered by bumble's modules at import time: 128-bit value -> widths"""
+    global _PREREG
+    if _PREREG is None:
+        import_all()
+        from bumble.core import UUID
+        _PREREG = {}
+        for u in UUID.UUIDS:
+            _PREREG.setdefault(RU.uuid_expand(bytes(u.uuid_bytes)), set()).add(len(u.uuid_bytes))
+    return _PREREG
+
+
+def prereg_conflict(le: bytes) -> bool:
+    """a UUID of equal value and *different* width exists since import: from_bytes of this
+    one meets it even in a fresh process"""
+    w = prereg().get(RU.uuid_expand(bytes(le)))
+    return bool(w) and any(x != len(le) for x in w)
+
+
+RU.UUID_CLASS_HOOK = lambda le: '/preregistered-other-width' if prereg_conflict(le) else ''  # noqa
+
+
+def uuid_diffs(want, got):
+    if isinstance(want, (bytes, bytearray)) and isinstance(got, (bytes, bytearray)):
+        if bytes(want) != bytes(got):
+            yield bytes(want), bytes(got)
+    elif isinstance(want, (list, tuple)) and isinstance(got, (list, tuple)):
+        for w, g in zip(want, got):
+            yield from uuid_diffs(w, g)
+
+
+def all_uuid_like(x):
+    if isinstance(x, (bytes, bytearray)):
+        if len(x) in (2, 4, 16):
+            yield bytes(x)
+    elif isinstance(x, (list, tuple)):
+        for y in x:
+            yield from all_uuid_like(y)
+
+
+def width_class(uuids, whole=()):
+    if any(prereg_conflict(u) for u in uuids if len(u) in (2, 4, 16)):
+        return 'preregistered-other-width'
+    seen = {}
+    for u in all_uuid_like(whole):
+        seen.setdefault(RU.uuid_expand(u), set()).add(len(u))
+    if any(len(w) > 1 for w in seen.values()):
+        return 'same-value-two-widths-in-one-unit'
+    return 'value-first-seen-in-other-width'
+
+
 class Ev:
     """evaluation context of one work item"""
 
     def __init__(self, r: R, fam: str, unit: str, rng: random.Random, ctx=None):
         self.r, self.fam, self.unit, self.rng, self.ctx = r, fam, unit, rng, ctx
         self.failed = False
+        self.uuids = ()
 
     def begin(self):
         """start of a new instance: only its first failing clause is reported (the later
@@ -136,7 +198,7 @@ class Ev:
         if want == got:
             return True
         if only_uuid_width(want, got):
-            self._report(key_of(self.fam, 'uuid-field', clause, 'width-changed'),
+            self._report(key_of(self.fam, 'uuid-field', clause, 'width-changed/' + width_class([w for w, _ in uuid_diffs(want, got)], want)),
                          lambda: f'{self.unit}: ' + (detail() if callable(detail) else detail))
         else:
             self.bad(clause, disc, detail)
@@ -151,7 +213,7 @@ class Ev:
             msg = f'{type(e).__name__}: {e} :: '
             if isinstance(e, TypeError) and 'incompatible UUID type' in str(e):
                 # a UUID list class refusing what UUID.from_bytes handed back: width changed
-                self._report(key_of(self.fam, 'uuid-field', f'{clause}-raises', 'width-changed'),
+                self._report(key_of(self.fam, 'uuid-field', f'{clause}-raises', 'width-changed/' + width_class(self.uuids, list(self.uuids))),
                              lambda: f'{self.unit}: ' + msg + (detail() if callable(detail) else detail))
                 return False, None
             self.bad(f'{clause}-raises', f'{disc + "/" if disc else ""}{type(e).__name__}',
@@ -909,6 +971,32 @@ def ev_psm(ev: Ev, unit):
         ev.check(res == (off + len(ref), psm), 'from-bytes/value', disc, lambda: f'{what()} parse_psm at {off} -> {res}')
 
 
+def ev_l2cap_pdu(ev: Ev, unit):
+    from bumble import l2cap
+    rng, r = ev.rng, ev.r
+    ev.begin()
+    cid = rng.choice([1, 4, 5, 6, 0x40, 0xFFFF, RU.gen_int(rng, 16)])
+    payload = RU.rnd_bytes(rng, RU.gen_len(rng, 700, (672, 673)))
+    ref = RU.l2cap_pdu(cid, payload)
+    r.sig('l2cap-pdu', length_class(len(payload)), cid < 0x40)
+    what = lambda: f'L2CAP_PDU cid={cid:#x} payload={hx(payload, 40)} ref={hx(ref, 60)}'  # noqa
+    ok, obj = ev.guarded('build', None, lambda: l2cap.L2CAP_PDU(cid, payload), what)
+    if ok:
+        ok, b1 = ev.guarded('serialise', None, lambda: bytes(obj), what)
+    if ok:
+        r.ev('layout_checks')
+        ev.check(b1 == ref, 'layout', None, lambda: f'{what()} bumble={hx(b1, 60)}')
+        okf, bf = ev.guarded('serialise', 'fcs', lambda: obj.to_bytes(with_fcs=True), what)
+        if okf:
+            want = RU.l2cap_pdu(cid, payload, True)
+            ev.check(bf == want, 'layout', 'fcs', lambda: f'{what()} with FCS bumble={hx(bf, 60)} expected={hx(want, 60)}')
+    r.ev('from_bytes_checks')
+    okp, p = ev.guarded('from-bytes/parse', None, lambda: l2cap.L2CAP_PDU.from_bytes(ref), what)
+    if okp:
+        ev.check((int(p.cid), bytes(p.payload)) == (cid, payload), 'from-bytes/value', None, lambda: f'{what()} parsed cid={p.cid} payload={hx(p.payload, 40)}')
+        ev.check(bytes(p) == ref, 'from-bytes/reserialise', None, lambda: f'{what()} again={hx(bytes(p), 60)}')
+
+
 def ev_unknown_code(ev: Ev, unit):
     """clause E: unregistered codes come back generic and re-serialise to the same bytes"""
     from bumble import att, l2cap, smp
@@ -1576,6 +1664,7 @@ def ev_ad_typed(ev: Ev, unit):
     cls = getattr(data_types, unit)
     values = RU.gen_fields(fields, rng)
     ref = RU.ad_typed_bytes(unit, values)
+    ev.uuids = [u for v in values if isinstance(v, list) for u in v if isinstance(u, bytes)]
     vc = RU.value_classes(fields, values)
     vcs = '+'.join(vc)
     r.sig('ad', unit, tuple(vc), length_class(len(ref)))
@@ -1838,6 +1927,7 @@ def pollute(ctx: Ctx, rng: random.Random, r: R):
 HAND_UNITS = {
     'l2cap-ertm': (['i-frame', 's-frame'], ev_ertm),
     'l2cap-psm': (['psm'], ev_psm),
+    'l2cap-pdu': (['L2CAP_PDU'], ev_l2cap_pdu),
     'unknown-code': (['l2cap-sig', 'att', 'smp'], ev_unknown_code),
     'sdp-element': (['any', 'uint', 'sint', 'uuid', 'text', 'url', 'seq', 'alt', 'bool', 'nil', 'nested', 'nonminimal', 'int128'], ev_sdp_element),
     'rfcomm-frame': (['sabm', 'ua', 'dm', 'disc', 'uih', 'uih-credit'], ev_rfcomm_frame),
@@ -1884,19 +1974,63 @@ def all_units(r: R | None = None):
     return out
 
 
-def eval_item(item, r: R, ctx: Ctx | None = None):
+def eval_instance(item, j, r: R, ctx: Ctx | None = None):
+    """one instance, reproducible from (family, unit, item seed, index) alone"""
     fam, unit = item['fam'], item['unit']
-    rng = random.Random(f'{fam}/{unit}/{item["s"]}')
+    rng = random.Random(f'{fam}/{unit}/{item["s"]}/{j}')
     ev = Ev(r, fam, unit, rng, ctx)
-    for _ in range(item['n']):
-        if fam in GENERIC_BY_NAME:
-            eval_generic(GENERIC_BY_NAME[fam], ev, unit)
-        else:
-            HAND_UNITS[fam][1](ev, unit)
-        r.evals()
+    if fam in GENERIC_BY_NAME:
+        eval_generic(GENERIC_BY_NAME[fam], ev, unit)
+    else:
+        HAND_UNITS[fam][1](ev, unit)
+    r.evals()
+
+
+def eval_item(item, r: R, ctx: Ctx | None = None):
+    for j in ([item['j']] if 'j' in item else range(item['n'])):
+        eval_instance(item, j, r, ctx)
 
 
 _SOLO_CACHE: dict[str, bool] = {}
+
+
+def _shared_dir():
+    """the per-run work directory of the parent runner (removed by it afterwards): the
+    classification of a key is shared between the shards of one run"""
+    try:
+        a = sys.argv[1]
+        d = os.path.dirname(os.path.abspath(a))
+        if os.path.basename(a).startswith('in') and os.path.basename(os.path.dirname(d)) == '.work':
+            return d
+    except Exception:
+        pass
+    return None
+
+
+def _shared_get(key):
+    d = _shared_dir()
+    if d is None:
+        return None
+    import hashlib
+    try:
+        with open(os.path.join(d, 'solo-' + hashlib.sha1(key.encode()).hexdigest())) as f:
+            return f.read().strip() == '1'
+    except OSError:
+        return None
+
+
+def _shared_put(key, val):
+    d = _shared_dir()
+    if d is None:
+        return
+    import hashlib
+    try:
+        path = os.path.join(d, 'solo-' + hashlib.sha1(key.encode()).hexdigest())
+        with open(path + f'.{os.getpid()}', 'w') as f:
+            f.write('1' if val else '0')
+        os.replace(path + f'.{os.getpid()}', path)
+    except OSError:
+        pass
 
 
 class _SoloServer:
@@ -1955,8 +2089,8 @@ def _solo_child(item) -> str:
 
 
 def _solo_server():
-    all_units(None)  # imports every bumble module the check touches; executes no codec
-    from bumble import a2dp, avc, avctp, data_types, rfcomm, rtp  # noqa
+    prereg()  # imports every bumble module the check touches; executes no codec
+    all_units(None)
     for line in sys.stdin:
         line = line.strip()
         if not line:
@@ -1985,33 +2119,46 @@ def _solo_server():
 
 
 def run_item_with_history(item, r: R, ctx: Ctx):
-    tmp = R(r.case)
-    eval_item(item, tmp, ctx)
-    for k, v in tmp.events.items():
-        r.ev(k, v)
-    r.evaluations += tmp.evaluations
-    r.sigs |= tmp.sigs
-    if not tmp.violations:
-        return
+    for j in range(item['n']):
+        tmp = R(r.case)
+        eval_instance(item, j, tmp, ctx)
+        for k, v in tmp.events.items():
+            r.ev(k, v)
+        r.evaluations += tmp.evaluations
+        r.sigs |= tmp.sigs
+        if tmp.violations:
+            classify(dict(item, j=j), tmp, r)
+
+
+def classify(inst, tmp: R, r: R):
+    """re-run the failing instance alone in a fresh process; the key says whether the failure needs the history"""
+    for v in tmp.violations:
+        if v['key'] not in _SOLO_CACHE:
+            sh = _shared_get(v['key'])
+            if sh is not None:
+                _SOLO_CACHE[v['key']] = sh
+                r.ev('solo_classification_from_other_shard')
     need = [v['key'] for v in tmp.violations if v['key'] not in _SOLO_CACHE]
     if need:
-        fresh = solo_keys(item)
+        fresh = solo_keys(inst)
         r.ev('solo_reruns')
         if fresh is None:
             r.ev('solo_rerun_failed')
         for k in need:
             if fresh is not None:
                 _SOLO_CACHE[k] = k not in fresh  # True = only with history
+                _shared_put(k, _SOLO_CACHE[k])
     for v in tmp.violations:
         hist = _SOLO_CACHE.get(v['key'])
         key = v['key'] + ('/history-dependent' if hist else '')
-        how = '' if v['key'] in need else ' (classification from an earlier item with the same key in this shard)'
-        note = {True: ' [history-dependent: the item alone in a fresh process is clean' + how + ']',
+        how = '' if v['key'] in need else ' (classification from an earlier instance with the same key in this run)'
+        note = {True: ' [history-dependent: the instance alone in a fresh process is clean' + how + ']',
                 False: ' [also fails alone in a fresh process' + how + ']', None: ' [fresh re-run unavailable]'}[hist]
-        r.bad(key, v['detail'] + note + f' item={json.dumps(item)}')
+        r.bad(key, v['detail'] + note + f' instance={json.dumps(inst)}')
 
 
 def case_mix(case, r: R):
+    prereg()
     rng = random.Random(f'mix/{case["seed"]}')
     ctx = Ctx()
     units = all_units(r)
